@@ -23,7 +23,7 @@ INVARIANT NetworksApart
 CHECK_DEADLOCK FALSE
 """
 
-NETS = {"mainnet": "main", "testnet": "test", "signet": "test", "regtest": "regtest"}
+NETS = {"mainnet": "main", "testnet": "test", "signet": "test", "regtest": "regtest", "testnet4": "test"}
 
 
 def hx(s: str | bytes) -> str:
@@ -117,13 +117,21 @@ def record(run: Run, thorough: bool) -> list[dict[str, Any]]:
             r2 = _call(lambda: b32.witness_from_address(s))
             evs.append({"op": "segwit_decode", "s": hx(s), "out": out_of(r2, lambda v: {"ver": v[0], "prog": bytes(v[1]).hex(), "net": NETS.get(v[2], v[2])})})
     # non-zero / overlong padding
-    for pad in ([0, 0], [1], [0, 0, 0, 0, 0]):
-        data = [0] + list(b32.power_of_2_base_conversion(bytes(20), 8, 5, True)) + pad
-        res = _call(lambda: bech32.encode("bc", data, 1))
-        if res[0] == "ok":
-            s = res[1].decode()
-            r2 = _call(lambda: b32.witness_from_address(s))
-            evs.append({"op": "segwit_decode", "s": hx(s), "out": out_of(r2, lambda v: {"ver": v[0], "prog": bytes(v[1]).hex(), "net": NETS.get(v[2], v[2])})})
+    # (the checksum is recomputed, so only the 5-to-8 regrouping can refuse: every program length class modulo 5 bytes, with 1-3 surplus
+    # characters of zeros, a surplus non-zero character, and non-zero bits in the last, partial group)
+    for ver, ln in [(0, 20), (0, 32), (1, 32)] + [(v, n) for v in (1, 2, 16) for n in ((2, 3, 5, 10, 15, 24, 33, 36, 39, 40) if thorough else (5, 15, 33, 40))]:
+        groups = list(b32.power_of_2_base_conversion(rnd.randbytes(ln), 8, 5, True))
+        pads: list[list[int]] = [[0], [0, 0], [0, 0, 0], [1], [16], [0, 1]]
+        variants = [groups + pad for pad in pads]
+        spare = (5 * len(groups)) - 8 * ln
+        if spare:
+            variants += [groups[:-1] + [groups[-1] | 1], groups[:-1] + [groups[-1] | (1 << (spare - 1))]]
+        for data in variants:
+            res = _call(lambda: bech32.encode(rnd.choice(["bc", "tb", "bcrt"]), [ver, *data], 1 if ver == 0 else 0x2BC830A3))
+            if res[0] == "ok":
+                s = res[1].decode()
+                r2 = _call(lambda: b32.witness_from_address(s))
+                evs.append({"op": "segwit_decode", "s": hx(s), "out": out_of(r2, lambda v: {"ver": v[0], "prog": bytes(v[1]).hex(), "net": NETS.get(v[2], v[2])})})
     # ---- generic bech32 strings (BIP173 / BIP350 vectors shapes) ----
     for hrp, data, const in (("a", [], 1), ("a", [], 0x2BC830A3), ("abcdef", list(range(32)), 1), ("split", [24, 23, 25, 24, 22, 28, 1, 16, 11, 29, 8, 25, 23, 29, 19, 13, 16, 23, 29, 22, 25, 28, 1, 16, 11, 3, 25, 29, 27, 25, 3, 3, 29, 19, 11, 25, 3, 3, 25, 13, 24, 29, 1, 25, 3, 3, 25, 13], 0x2BC830A3), ("?", [1, 2], 1)):
         res = _call(lambda: bech32.encode(hrp, data, const))
@@ -152,6 +160,54 @@ def record(run: Run, thorough: bool) -> list[dict[str, Any]]:
                     r2 = _call(dec)
                     evs.append({"op": "address_decode", "s": hx(m.strip()), "wrote": sn,
                                 "out": out_of(r2, lambda v: {"spk": bytes(v[0]).hex(), "net": "test" if NETS.get(v[1], v[1]) == "regtest" and not addr.startswith("bcrt") else NETS.get(v[1], v[1])})})
+    # ---- keys in every spelling on every network: which network a string is read as, and the addresses it gives there ----
+    from btclib.bip32 import bip32
+    from btclib.curves import mult
+    from btclib.network import NETWORKS
+    from btclib.to_prv_key import prv_keyinfo_from_prv_key as prv_info
+    from btclib.to_pub_key import pub_keyinfo_from_key as pub_info
+
+    def sec_of(q: int, compressed: bool = True) -> bytes:
+        x, y = mult(q)
+        return (bytes([2 + y % 2]) + x.to_bytes(32, "big")) if compressed else b"\x04" + x.to_bytes(32, "big") + y.to_bytes(32, "big")
+
+    declared = ["", *NETS]
+    for net, table in NETWORKS.items():
+        q = rnd.randrange(1, 2**255)
+        spellings: list[tuple[str, str, Any, bytes]] = [("wif", table.wif.hex(), b58.wif_from_prv_key(q, net, True), sec_of(q)), ("sec", "", sec_of(q), sec_of(q))]
+        fields = ["bip32", "slip132_p2wpkh", "slip132_p2wpkh_p2sh", "slip132_p2wsh", "slip132_p2wsh_p2sh"]
+        for f in (fields if thorough or net in ("mainnet", "signet") else rnd.sample(fields, 2)):
+            xprv = bip32.derive(bip32.rootxprv_from_seed(rnd.randbytes(32), getattr(table, f + "_prv")), "m/1h/7")
+            xpub = bip32.xpub_from_xprv(xprv)
+            kd = bip32.BIP32KeyData.b58decode(xpub)
+            spellings += [("xprv", getattr(table, f + "_prv").hex(), xprv, kd.key), ("xpub", kd.version.hex(), xpub, kd.key)]
+        for kind, prefix, key, sec_bytes in spellings:
+            for d in declared:
+                if kind != "sec":
+                    if kind != "xpub":
+                        r0 = _call(lambda: prv_info(key, d or None))
+                        evs.append({"op": "keyinfo", "kind": kind, "prefix": prefix, "declared": d, "via": "prv_keyinfo_from_prv_key", "out": out_of(r0, lambda v: {"net": v[1]})})
+                    r1 = _call(lambda: pub_info(key, d or None))
+                    evs.append({"op": "keyinfo", "kind": kind, "prefix": prefix, "declared": d, "via": "pub_keyinfo_from_key", "out": out_of(r1, lambda v: {"net": v[1]})})
+                if d:
+                    for fn, f2 in (("p2pkh", b58.p2pkh), ("p2wpkh", b32.p2wpkh), ("p2wpkh_p2sh", b58.p2wpkh_p2sh)):
+                        r2 = _call(lambda: f2(key, d))
+                        evs.append({"op": "keyaddr", "fn": fn, "kind": kind, "prefix": prefix, "sec": sec_bytes.hex(), "net": d, "out": out_of(r2, lambda v: {"v": hx(v)})})
+    # ---- ScriptPubKey constructors on every network: the object remembers the network and spells its address there ----
+    for net in NETS:
+        q1, q2 = rnd.randrange(1, 2**255), rnd.randrange(1, 2**255)
+        rs = b"\x51" + bytes([rnd.randrange(1, 75)])
+        ctors = {"p2pkh": lambda: ScriptPubKey.p2pkh(sec_of(q1), network=net), "p2pkh-uncompressed": lambda: ScriptPubKey.p2pkh(sec_of(q1, False), network=net),
+                 "p2wpkh-of-wif": lambda: ScriptPubKey.p2wpkh(b58.wif_from_prv_key(q1, net, True)), "p2sh": lambda: ScriptPubKey.p2sh(rs, net), "p2wsh": lambda: ScriptPubKey.p2wsh(rs, net),
+                 "p2tr-key": lambda: ScriptPubKey.p2tr(sec_of(q1), None, net), "p2tr-tree": lambda: ScriptPubKey.p2tr(sec_of(q1), [(0xC0, ["OP_1"])], net),
+                 "p2tr-script-only": lambda: ScriptPubKey.p2tr(None, [(0xC0, ["OP_1"])], net), "p2pk": lambda: ScriptPubKey.p2pk(sec_of(q1), net),
+                 "p2ms": lambda: ScriptPubKey.p2ms(1, [sec_of(q1), sec_of(q2)], net), "from_address": lambda: ScriptPubKey.from_address(b32.p2wpkh(sec_of(q2), net))}
+        for name, fn in ctors.items():
+            r3 = _call(lambda: (lambda o: (o.script, o.address, o.network))(fn()))
+            if r3[0] == "ok" and name in ("from_address", "p2wpkh-of-wif"):      # a string names a prefix class, not a network: the first network of the class is answered
+                evs.append({"op": "ctor", "ctor": name, "net": {"main": "mainnet", "test": "testnet", "regtest": "regtest" if name == "from_address" else "testnet"}[NETS[net]], "spk": bytes(r3[1][0]).hex(), "out": out_of(r3, lambda v: {"v": hx(v[1]), "net": v[2]})})
+            else:
+                evs.append({"op": "ctor", "ctor": name, "net": net, "spk": bytes(r3[1][0]).hex() if r3[0] == "ok" else "", "out": out_of(r3, lambda v: {"v": hx(v[1]), "net": v[2]})})
     # ---- WIF ----
     for net, sn in (("mainnet", "main"), ("testnet", "test")):
         for q in (1, 2**255, rnd.randrange(1, 2**256 - 2**130)):
